@@ -467,7 +467,7 @@ pub fn c02_cases(tier: Tier) -> Vec<Case> {
             }
             if let Some(mut c) = decl_case(&d, "accept", "layout") {
                 c.probes = probes_for(&d, &d.name, &str_inputs);
-                c.probes.push((format!("format!(\"{{:?}}\", {}::default().into_inner())", d.name), "default => \"ab\"".to_string()));
+                c.probes.push((format!("match ::std::panic::catch_unwind(|| format!(\"{{:?}}\", {}::default().into_inner())) {{ Ok(s) => s, Err(_) => \"PANIC\".to_string() }}", d.name), "default => \"ab\"".to_string()));
                 cases.push(c);
                 n += 1;
             }
